@@ -671,7 +671,7 @@ func gen(t *rapid.T) Case {
 	o.SetOptionalBitmap = rapid.Bool().Draw(t, "setOptionalBitmap")
 	o.UseDefaultValue = rapid.Bool().Draw(t, "useDefaultValue")
 	o.NotCheckRequire = rapid.IntRange(0, 3).Draw(t, "notCheckRequire") == 0
-	cfg := tm.GenCfg{MaxDepth: 3, KeyKinds: tjson.SupportedKeys, Reqs: true, Aliases: true, Recursive: true, WireOrder: true, ValidUTF8: true, FiniteDoubles: true,
+	cfg := tm.GenCfg{MaxDepth: 3, KeyKinds: tjson.SupportedKeys, Reqs: true, Aliases: true, Lookalike: true, Recursive: true, WireOrder: true, ValidUTF8: true, FiniteDoubles: true,
 		NoSet: false, BigIDs: rapid.IntRange(0, 2).Draw(t, "bigIDs") == 0, RootStruct: rapid.IntRange(0, 3).Draw(t, "rootStruct") != 0,
 		BigSizes: rapid.IntRange(0, 5).Draw(t, "bigSizes") == 0}
 	u := tm.GenUniverse(t, cfg)
